@@ -1620,6 +1620,25 @@ impl<'a> Elab<'a> {
         }
         args.extend(extra_args);
         let _ = consumed;
+        // `P.f(g(&mut P..))`: an argument that itself borrows the (pool) path of the receiver mutably - a consequence of the
+        // explicit pool parameter (R6) - is evaluated into a temporary first; the receiver is a place, so the order of
+        // evaluation is unchanged
+        let mut hoisted_args: Vec<Stmt> = vec![];
+        {
+            let rtxt = expr_to_string(&recv);
+            if rtxt.starts_with("self") && (rtxt.contains('.') ) {
+                let root: String = rtxt.split(" . ").take(2).collect::<Vec<_>>().join(" . ");
+                for (k, a) in args.iter_mut().enumerate() {
+                    let at = expr_to_string(a);
+                    if !matches!(a, Expr::Reference(_)) && (at.contains(&format!("& mut {}", root)) || at.contains(&format!("&mut {}", root))) {
+                        let tmp = ident(&format!("__vx_arg{}", k));
+                        let val = a.clone();
+                        hoisted_args.push(parse_quote!(let #tmp = #val;));
+                        *a = parse_quote!(#tmp);
+                    }
+                }
+            }
+        }
 
         let mut mc = ExprMethodCall {
             attrs: vec![],
@@ -1658,7 +1677,12 @@ impl<'a> Elab<'a> {
             Some(f) => format!("{}.{}", f, method),
             None => format!(".{}", method),
         };
-        self.wrap_op(Expr::MethodCall(mc), &base, false)
+        let call = self.wrap_op(Expr::MethodCall(mc), &base, false);
+        if hoisted_args.is_empty() {
+            call
+        } else {
+            parse_quote!({ #(#hoisted_args)* #call })
+        }
     }
 
     fn do_call(&mut self, c: ExprCall) -> Expr {
@@ -2250,7 +2274,38 @@ impl<'a> Elab<'a> {
         }
         // a contract applied by ordinal only (the anchored header text is gone: the loop was rewritten) is marked: `check` does not
         // take a failure of, or after, such a loop for a violation (its invariant was written for another loop)
-        let flag = proc_macro2::Literal::u32_unsuffixed(if by_text.is_none() && id < 100 && self.spec.loops.get(&id).map(|l| l.at.is_some()).unwrap_or(false) { 1 } else { 0 });
+        // ... unless the header still names the same things in the same order (only an operator or a literal differs, e.g.
+        // `i < n` -> `i <= n`): that is the same loop with a changed condition, and its contract judges it
+        fn idents_of(t: &str) -> Vec<String> {
+            let mut out = vec![];
+            let mut cur = String::new();
+            for c in t.chars() {
+                if c.is_alphanumeric() || c == '_' {
+                    cur.push(c);
+                } else {
+                    if !cur.is_empty() && !cur.chars().next().unwrap().is_ascii_digit() {
+                        out.push(cur.clone());
+                    }
+                    cur.clear();
+                }
+            }
+            if !cur.is_empty() && !cur.chars().next().unwrap().is_ascii_digit() {
+                out.push(cur);
+            }
+            out
+        }
+        // (also when one header's names are a subsequence of the other's: a conjunct was added to, or dropped from, the condition)
+        fn subseq(a: &[String], b: &[String]) -> bool {
+            let mut i = 0;
+            for x in b {
+                if i < a.len() && a[i] == *x {
+                    i += 1;
+                }
+            }
+            i == a.len()
+        }
+        let same_names = self.spec.loops.get(&id).and_then(|l| l.at.as_ref()).map(|a| { let (x, y) = (idents_of(a), idents_of(&h)); x == y || (x.len() >= 3 && subseq(&x, &y)) || (y.len() >= 3 && subseq(&y, &x)) }).unwrap_or(false);
+        let flag = proc_macro2::Literal::u32_unsuffixed(if by_text.is_none() && id < 100 && !same_names && self.spec.loops.get(&id).map(|l| l.at.is_some()).unwrap_or(false) { 1 } else { 0 });
         let n = proc_macro2::Literal::u32_unsuffixed(id as u32);
         let hoisted: Vec<proc_macro2::Literal> = self.hoisted.iter().map(|(a, b)| proc_macro2::Literal::string(&format!("{} == {}", a, b))).collect();
         parse_quote!(__vx_loop!(#n, #flag #(, #hoisted)*);)
